@@ -57,7 +57,7 @@ class Resp:
 
 _ATOM_SPECIALS = set(b'(){ %*"\\]') | set(range(0, 0x20)) | {0x7f}
 _ASTRING_EXTRA = {ord(']')}
-_TAG_EXCLUDE = _ATOM_SPECIALS | {ord('+')}
+_TAG_EXCLUDE = (_ATOM_SPECIALS - {ord(']')}) | {ord('+')}
 
 
 class _P:
@@ -142,8 +142,9 @@ class _P:
             raise self.err(f'literal announces {n} bytes, only '
                            f'{len(self.d) - self.p} follow')
         val = self.d[self.p:self.p + n]
-        if kind == 'literal' and b'\x00' in val:
-            raise self.err('NUL inside a non-binary literal')
+        # (RFC 3501 CHAR8 excludes NUL, but the property statement demands
+        # NUL-freedom of quoted strings only; a stored message that contains
+        # NUL comes back in a plain literal and is not flagged here.)
         self.p += n
         return Tok(kind, val)
 
